@@ -27,6 +27,9 @@ def _gen_filters(rng, dump, stream_ids, tids, procs):
     f = {}
     if rng.chance(0.5):
         f['tid'] = rng.pick(tids + [12345, -1, -5]) if tids else 12345      # (a negative number is no thread's id: nothing matches)
+        big = [t for t in tids if t >= 1 << 63]
+        if big and rng.chance(0.5):
+            f['tid'] = rng.pick(big) - (1 << 64)       # ... not even the thread whose id has the same 64-bit pattern
         if dump.get('lifecycle_tid') is not None and rng.chance(0.5):
             f['tid'] = dump['lifecycle_tid']
     classes = sorted({i >> 24 for i in stream_ids})
